@@ -281,8 +281,12 @@ def run(tier, seed):
             for hk in (1, 3, 4):
                 for sub in range(32):
                     jobs.append((size, hk, 8, sub, 32))
+    rd = core.record_dir(PID) if tier == "thorough" else None
     sh = core.parallel(lhenum_job, exe=bdir + "/lhenum", jobs=jobs)
     chk.absorb(sh)
+    if rd:
+        os.environ.pop("VF_RECORD_DIR", None)
+        core.memcheck_recorded(chk, build.build("plain"), rd)
     sh = core.parallel(churn_shard, seed=seed, tier=tier, exe=bdir + "/jcdrv", nhist=3840 if tier == "quick" else 16000)
     chk.absorb(sh)
     chk.extra["enumerated_completely"] = "all sequences of length <= %d over {add,delete,lookup} x 4 keys on lh_table_new(size 1..5) x 4 caller-supplied hash functions" % maxlen
